@@ -31,6 +31,7 @@ from collections import Counter
 from hypothesis import strategies as st
 
 from ..engine import Clause, require
+from ..common import with_history  # noqa: E402
 
 ASSUMPTIONS = [
     "runs_config_model=0 only: the configuration-model samples and norm_delta are random and "
@@ -144,6 +145,7 @@ def _abstract(case):
     return [[labels[i] for i in e] for e in case["edges"]]
 
 
+@with_history
 def _build(edge_lists, case, isolated=()):
     """A Hypergraph holding exactly these hyperedges (duplicates by node set are
     not generated), built through the constructor or through add_edge/add_edges."""
